@@ -176,14 +176,19 @@ class Parser(object):
                 line, pos
             )
 
-    def _is_type_sizer_compatible(self, typename, seen=()):
-        if typename in {type_ + width for type_ in 'ui' for width in ['8', '16', '32', '64']}:
+    def _is_type_sizer_compatible(self, typename):
+        integers = {type_ + width for type_ in 'ui' for width in ['8', '16', '32', '64']}
+        if typename in integers:
             return True
-        elif (typename in self.typedecls and isinstance(self.typedecls[typename], model.Typedef) and
-              typename not in seen):  # a typedef of an undeclared name may lead back to itself
-            return self._is_type_sizer_compatible(self.typedecls[typename].type_name, seen + (typename,))
-        else:
-            return False
+        # follow a typedef chain through the definitions bound at declaration: the lower links may live in files
+        # this one does not include itself; a typedef of an undeclared name may lead back to where it started
+        node, seen = self.typedecls.get(typename), set()
+        while isinstance(node, model.Typedef) and id(node) not in seen:
+            if node.type_name in integers:
+                return True
+            seen.add(id(node))
+            node = node.definition or self.typedecls.get(node.type_name)
+        return False
 
     def p_specification(self, t):
         '''specification : definition_list'''
